@@ -18,6 +18,52 @@ def literal_of(f, n):
     return n["v"] if n is not None and n["k"] == "StringLiteral" else None
 
 
+def masked_bits_rule(prog, run, rid, thorough=False):
+    """The operand rendering of a failing BITS_EQUAL: StringFromMaskedBits folded over byte counts 0..9 and 16 x (value, mask)
+    patterns against the reference rendering (the low min(byteCount, 8) bytes, most significant bit first, 'x' for an unmasked bit,
+    groups of eight separated by one space). An undefined operation on the way (a shift by the full width) is a violation: what the
+    operands would be shown as is then up to the compiler. Shared with C13 (the helper builds a bounded string)."""
+    f = prog.fn("StringFromMaskedBits")
+    run.analysed(f)
+    width = 8
+
+    def ref(value, mask, bc):
+        bits = min(bc, width) * 8
+        out = []
+        for i_ in range(bits):
+            b_ = bits - 1 - i_
+            out.append(("1" if (value >> b_) & 1 else "0") if (mask >> b_) & 1 else "x")
+            if i_ % 8 == 7 and i_ != bits - 1:
+                out.append(" ")
+        return "".join(out)
+    pats = [(0xDEADBEEF12345678, 0xFFFFFFFF0000FFFF), (0xA5A5A5A5A5A5A5A5, (1 << 64) - 1), (0x8000000000000001, 0x8000000000000001), (0x0123456789ABCDEF, 0)]
+    if thorough:
+        pats += [((1 << 64) - 1, (1 << 64) - 1), (0, (1 << 64) - 1), (0x00FF00FF00FF00FF, 0x0F0F0F0F0F0F0F0F)]
+    bad, ncase = None, 0
+    for bc in list(range(0, 10)) + [16]:
+        for value, mask in pats:
+            ncase += 1
+            text = {}
+            calls = string_hooks({"SimpleString::operator+=": lambda key, v: (text.__setitem__(str(key), None if text.get(str(key), "") is None or not (isinstance(v, tuple) and v[0] == "str") else text.get(str(key), "") + v[1]), 0)[1]})
+            ev = Evaluator(prog, f, env=dict(zip([q["name"] for q in f.params], (value, mask, bc))), calls=calls)
+            ev.pass_object = "key"
+            try:
+                ev.run_blocks(f.entry, max_steps=40000)
+                if len(text) > 1 or None in text.values():
+                    raise AnalysisBroken("%s.%s: StringFromMaskedBits builds its result through %d string objects (one modelled)" % (run.pid, rid, len(text)))
+                got = list(text.values())[0] if text else ""
+                why = "" if got == ref(value, mask, bc) else "renders %r, the operand is %r" % (got, ref(value, mask, bc))
+            except Unknown as u:
+                und = getattr(ev, "undefined_ops", None)
+                if not und:
+                    raise AnalysisBroken("%s.%s: StringFromMaskedBits cannot be folded for byteCount %d: %s" % (run.pid, rid, bc, u))
+                why = "undefined operation on the way: %s" % und[0]
+            if why and bad is None:
+                bad = "StringFromMaskedBits(%#x, %#x, %d): %s" % (value, mask, bc, why)
+    run.ob(rid, "StringFromMaskedBits folded on %d (value, mask, byte count 0..9 and 16) cases against the reference rendering of the operand" % ncase, f.site, bad is None, witness=bad or "%d cases" % ncase,
+           what="" if bad is None else "a failing BITS_EQUAL does not show its operands: " + bad)
+
+
 def check(ctx, run):
     prog = ctx.program()
     run.assume("vsnprintf(dst, n, ...) writes at most n bytes including the terminator and returns the untruncated length (C99)")
@@ -25,6 +71,8 @@ def check(ctx, run):
     run.rule("R1", "fixed buffer: under the invariant (write_limit_ <= LEN-1, positions_filled_ <= LEN-1) established by every writer of the two fields, add() folded over the boundary lattice of (limit, fill, vsnprintf result) never hands vsnprintf a window outside [0, LEN) and re-establishes the invariant", floor=150, exhaustive=True)
     run.rule("R2", "footer reservation: the leak report folded over scripted table walks (0..3 leaks x allocator kinds x buffer full or not): the write limit is set before any text, the capacity is sampled before the limit is reset, the total line states the number of leaks walked also when the buffer was full, the too-many notice appears iff it was full, the malloc warning iff a malloc leak was seen; the space left by the limit covers the worst-case text added after the reset", floor=5)
     run.rule("R3", "first-difference scans: every loop that advances while two sequences agree also stops at the end of a sequence, unless every construction site of the failure is dominated by a comparison != 0 of the very same operands (frozen exceptions); the scans are also exercised by the R4 folds on operand pairs whose printable renderings coincide", floor=4)
+    run.rule("R5", "bit operands: StringFromMaskedBits (the operand rendering of BITS_EQUAL failures) folded over byte counts 0..9 and 16 x value/mask patterns against the reference rendering; an undefined shift on the way is a violation", floor=1, exhaustive=True)
+    masked_bits_rule(prog, run, "R5", thorough=ctx.thorough)
     run.rule("R4", "content: expected before actual in the but-was text; string kinds render through the printable form; the reported position is the raw index and the marker offset the printable one; the padding covers half the window", floor=8)
 
     LEN = [e["v"] for en in prog.enums.values() for e in en["enumerators"] if e["name"] == "SIMPLE_STRING_BUFFER_LEN"]
